@@ -14,8 +14,11 @@ EXTRA = {"any": "", "logic": """5. This time do NOT use caching, memoisation, ob
    that mainstream inputs behave identically. Prefer paths that need a specific *combination* of options or values."""}
 extra = EXTRA[style]
 props = [json.loads(l) for l in open('/verif/properties.jsonl')]
+only = [x for x in os.environ.get("WAVE_ONLY", "").split(",") if x]
 for p in props:
     pid = p['id']
+    if only and pid not in only:
+        continue
     d = f'{root}/{pid}'
     os.makedirs(d + '/out', exist_ok=True)
     if not os.path.exists(d + '/wt'):
